@@ -73,6 +73,8 @@ impl<T: Send + Sync + 'static> Buffer<T> {
             return f(&data);
         }
         mem::drop(data);
+        #[cfg(egglog_verif)]
+        egglog_concurrency::verif::point(33);
         let mut data = self.data.lock();
         if data.len() < len {
             let len = len.next_power_of_two();
@@ -84,6 +86,8 @@ impl<T: Send + Sync + 'static> Buffer<T> {
             });
         }
         mem::drop(data);
+        #[cfg(egglog_verif)]
+        egglog_concurrency::verif::point(34);
         self.with_access(len, f, init)
     }
 
